@@ -15,7 +15,7 @@ func init() {
 	register(&Prop{
 		ID:    "C11",
 		Level: "exploration",
-		Rule: "case = generated store + history of put/remove/delete statements; each `delete where P [limit s,n]` is judged against the engine's own `select * where P` (no LIMIT, row mode, cache off) executed on a copy of the prior state and sliced [s,s+n) by the harness: store afterwards must equal prior minus exactly those keys, byte for byte, with no Put/BatchPut issued. Then each delete is re-executed with single faults (every write call x {err, err-applied, err-partial}, plus sampled read calls) under the narrowed oracle deleted ⊆ selected, others untouched, nothing written, error surfaced. distinct_nontrivial counts distinct (plan-node chain, drain mode, limit class, selected-vs-batch class, fault kind) tuples of deletes whose reference select returned at least one key or whose plan reached storage.",
+		Rule:  "case = generated store + history of put/remove/delete statements; each `delete where P [limit s,n]` is judged against the engine's own `select * where P` (no LIMIT, row mode, cache off) executed on a copy of the prior state and sliced [s,s+n) by the harness: store afterwards must equal prior minus exactly those keys, byte for byte, with no Put/BatchPut issued. Then each delete is re-executed with single faults (every write call x {err, err-applied, err-partial}, plus sampled read calls) under the narrowed oracle deleted ⊆ selected, others untouched, nothing written, error surfaced. distinct_nontrivial counts distinct (plan-node chain, drain mode, limit class, selected-vs-batch class, fault kind) tuples of deletes whose reference select returned at least one key or whose plan reached storage.",
 		Assumptions: []string{
 			"storage with snapshot cursors (DESIGN.md §3.3); eager and lazy snapshot variants both exercised",
 			"the reference cell (row mode, cache off, unlimited select) is the engine's own; where row and batch unlimited selects disagree the case is counted as confounded and not judged here (C03's matter)",
